@@ -52,6 +52,7 @@ type Step struct {
 	Draw    *Drawing `json:"draw,omitempty"`
 	Format  string   `json:"format,omitempty"`
 	Opt     int      `json:"opt,omitempty"`
+	SVG     string   `json:"svg,omitempty"` // svgpath: parse this string (one of a few that several calls of a run share) instead of the shape's
 	// SharedFace k > 0: the text uses face k of the run's shared *FontFace objects instead of a face of its own
 	SharedFace int  `json:"shared_face,omitempty"`
 	Repeat     bool `json:"repeat,omitempty"`  // render: render the same canvas object a second time, the output must be identical
